@@ -309,6 +309,9 @@ func (in *Interp) runPath(run func()) (end pathEnd) {
 	in.sched = newSched(in)
 	in.globals = map[*ssa.Global]*Value{}
 	in.initDone = map[*ssa.Package]bool{}
+	in.syncMaps = nil
+	in.bgCtx = nil
+	in.lastClock = nil
 	defer func() {
 		r := recover()
 		in.sched.abortAll()
